@@ -346,7 +346,8 @@ GENERIC_ROTS = {
     "q1110": quat_to_matrix((1, 1, 1, 0)),
 }
 IDENT = [[1.0, 0.0, 0.0], [0.0, 1.0, 0.0], [0.0, 0.0, 1.0]]
-SCALES = {"s1": 1.0, "s2^-10": 2.0**-10, "s2^10": 2.0**10, "s1e-3": 1e-3, "s1e3": 1e3}
+SCALES = {"s1": 1.0, "s2^-10": 2.0**-10, "s2^10": 2.0**10, "s1e-3": 1e-3, "s1e3": 1e3, "s1e-6": 1e-6, "s1e6": 1e6, "s1e-9": 1e-9}
+EXTREME_SCALES = ("s1e-6", "s1e6", "s1e-9")  # outside the 1e-3..1e3 range that C09 pins; used by targeted cases only
 SHIFTS = {"t0": (0.0, 0.0, 0.0), "t3-25": (3.0, -2.0, 5.0), "t10u": tuple(10.0 * c / math.sqrt(38.0) for c in (3.0, -2.0, 5.0))}
 
 
@@ -395,11 +396,16 @@ def placements_quick():
     ]
 
 
+def placements_tiny():
+    """absolute tolerances (np.isclose against 0, 1e-8 ...) only show at extreme absolute sizes"""
+    return [placement("q1234", "s1e-6", "t3-25"), placement("I", "s1e-6", "t0"), placement("q2-153", "s1e6", "t10u"), placement("L7", "s1e-9", "t3-25")]
+
+
 def placements_all():
     out = []
     rots = ["I"] + ["L%d" % i for i in range(1, 24)] + list(GENERIC_ROTS)
     for r in rots:
-        for s in SCALES:
+        for s in [k for k in SCALES if k not in EXTREME_SCALES]:
             for t in SHIFTS:
                 out.append(placement(r, s, t))
     return out
@@ -409,7 +415,7 @@ def placements_medium():
     out = []
     rots = ["I", "L5", "L10", "L17", "L22"] + list(GENERIC_ROTS)
     for i, r in enumerate(rots):
-        for j, s in enumerate(SCALES):
+        for j, s in enumerate([k for k in SCALES if k not in EXTREME_SCALES]):
             for k, t in enumerate(SHIFTS):
                 if (i + j + k) % 3 == 0 or r == "I":
                     out.append(placement(r, s, t))
